@@ -82,16 +82,24 @@ impl HotReloadingData {
     }
 
     pub fn handle_events(&mut self, events: super::Events) {
+        #[cfg(assets_manager_verif)]
+        crate::verif::emit("Events", String::new);
         events.for_each(|entry| {
+            #[cfg(assets_manager_verif)]
+            crate::verif::emit("Event", || format!("\"entry\":{},\"known\":{}", crate::verif::entry(&entry), self.deps.contains(&entry)));
             if self.deps.contains(&entry) {
                 log::trace!("New event: {entry:?}");
                 self.to_reload.insert(entry);
             }
         });
+        #[cfg(assets_manager_verif)]
+        crate::verif::emit("EventsEnd", String::new);
         self.update_if_static();
     }
 
     pub fn update_if_local(&mut self, cache: &AssetMap, reloader: &super::HotReloader) {
+        #[cfg(assets_manager_verif)]
+        crate::verif::emit("MsgPtr", || format!("\"local\":{}", matches!(self.cache, CacheKind::Local)));
         if let CacheKind::Local = &mut self.cache {
             let cache = BorrowedCache::new(cache, reloader, &self.source);
             run_update(&mut self.to_reload, &mut self.deps, cache);
@@ -112,6 +120,8 @@ impl HotReloadingData {
         asset_cache: &'static AssetMap,
         reloader: &'static super::HotReloader,
     ) {
+        #[cfg(assets_manager_verif)]
+        crate::verif::emit("MsgStatic", || format!("\"local\":{}", matches!(self.cache, CacheKind::Local)));
         if let CacheKind::Local = &mut self.cache {
             self.cache = CacheKind::Static(asset_cache, reloader);
             log::trace!("Hot-reloading now use a 'static reference");
@@ -123,19 +133,27 @@ impl HotReloadingData {
 
     pub fn add_asset(&mut self, infos: AssetReloadInfos) {
         let AssetReloadInfos(key, new_deps, typ) = infos;
+        #[cfg(assets_manager_verif)]
+        crate::verif::emit("MsgAddAsset", || format!("{},\"deps\":{}", crate::verif::key(&key.id, key.type_id), crate::verif::deps(&new_deps)));
         self.deps.insert_asset(key, new_deps, typ);
     }
 
     pub fn clear_local_cache(&mut self) {
+        #[cfg(assets_manager_verif)]
+        crate::verif::emit("MsgClear", String::new);
         self.to_reload.clear();
     }
 }
 
 fn run_update(changed: &mut HashSet<OwnedDirEntry>, deps: &mut DepsGraph, cache: BorrowedCache) {
+    #[cfg(assets_manager_verif)]
+    crate::verif::emit("Pass", || format!("\"changed\":[{}]", changed.iter().map(crate::verif::entry).collect::<Vec<_>>().join(",")));
     let to_update = deps.topological_sort_from(changed.iter());
     changed.clear();
 
     for key in to_update.into_iter() {
         deps.reload(cache.as_any_cache(), key);
     }
+    #[cfg(assets_manager_verif)]
+    crate::verif::emit("PassEnd", String::new);
 }
